@@ -1,5 +1,206 @@
 import QipVerif.Util.Proto
-/-! Driver stub (to be filled in by the owner of this model). -/
-open QipVerif.Proto
-def step (_line : String) : String := "bad-op"
+import QipVerif.Model.Sim
+/-! Driver for the simulator / world model (C02, C16), exact backend.
+
+Request (one line):
+`hist cfg=<copy><ccv><reset><getter> mode=sv|dm n=<qubits> ncb=<cbits> ops=<op;op;…> lists=<l;l;…|N>
+      rng=<i,i,…|N> inits=<state/state/…> phases=<p,p,…|N> calls=<call/call/…>`
+
+* op: `g.<code>.<q,q>.<cc|N|e>.<ccv>` or `m.<target>.<store|N>`; `N` = None, `e` = empty list
+* list: `0,1,1` or `e`;   state: `<k>:<v>_<v>…` with `v = a,b,c,…`
+* call: `run.<state>.<cb|N>.<mr|N|e>` · `stat.<state>.<cb|N>` · `init.<state>.<cb|N>.<mr|N|e>` ·
+  `step` · `state` · `query` · `compile.<circ>.<k:v,k:v|N>` · `load.<circ>.<0|1>`
+
+Answer: one chunk per call, then the final world, joined by ` ; `:
+`R!<states&…>!<probs&…>!<ref:values+…|A>!<events>` · `E<kind>!<events>` · `I` · `S!<events>` · `Q` · `C<circ>:<args>` ·
+`W!heap=…!sim=…!comp=…!proc=…`; `err value` when the circuit cannot be constructed. -/
+open QipVerif QipVerif.Proto QipVerif.Sim QipVerif.Heap
+
+abbrev W := World Exact.QS Exact.Prob
+
+def optInt? (s : String) : Option (Option Int) :=
+  if s = "N" then some none else (String.toInt? s).map some
+def optNat? (s : String) : Option (Option Nat) :=
+  if s = "N" then some none else (String.toNat? s).map some
+def optInts? (s : String) : Option (Option (List Int)) :=
+  if s = "N" then some none else if s = "e" then some (some []) else (intList? s).map some
+
+def parseOp (s : String) : Option Op :=
+  match s.splitOn "." with
+  | ["g", code, qs, cc, ccv] => do
+    let code ← String.toNat? code
+    let qs ← natList? qs
+    let cc ← optInts? cc
+    let ccv ← String.toInt? ccv
+    pure (.gate { code := code, qubits := qs, cc := cc, ccv := ccv })
+  | ["m", t, st] => do
+    let t ← String.toNat? t
+    let st ← optInt? st
+    pure (.meas t st)
+  | _ => none
+
+def parseState (n : Nat) (s : String) : Option Exact.QS :=
+  match s.splitOn ":" with
+  | [k, vs] => do
+    let k ← String.toNat? k
+    let vecs ← (vs.splitOn "_").mapM intList?
+    pure { n := n, k := k, vecs := vecs }
+  | _ => none
+
+def parseKV (s : String) : Option (Nat × Int) :=
+  match s.splitOn ":" with
+  | [k, v] => do pure ((← String.toNat? k), (← String.toInt? v))
+  | _ => none
+
+inductive Call
+  | run (st : Nat) (cb : Option Nat) (mr : Option (List Int))
+  | stat (st : Nat) (cb : Option Nat)
+  | init (st : Nat) (cb : Option Nat) (mr : Option (List Int))
+  | step
+  | getState
+  | query
+  | compile (circ : Nat) (args : Option (List (Nat × Int)))
+  | load (circ : Nat) (user : Bool)
+
+def parseCall (s : String) : Option Call :=
+  match s.splitOn "." with
+  | ["run", st, cb, mr] => do pure (.run (← String.toNat? st) (← optNat? cb) (← optInts? mr))
+  | ["stat", st, cb] => do pure (.stat (← String.toNat? st) (← optNat? cb))
+  | ["init", st, cb, mr] => do pure (.init (← String.toNat? st) (← optNat? cb) (← optInts? mr))
+  | ["step"] => some .step
+  | ["state"] => some .getState
+  | ["query"] => some .query
+  | ["compile", c, a] => do
+    let c ← String.toNat? c
+    if a = "N" then pure (.compile c none) else
+      let kv ← (splitNE a ",").mapM parseKV
+      pure (.compile c (some kv))
+  | ["load", c, u] => do pure (.load (← String.toNat? c) ((← String.toNat? u) != 0))
+  | _ => none
+
+def errName : Err → String
+  | .index => "index" | .type => "type" | .value => "value" | .attr => "attr"
+
+def showList (l : List Int) : String := if l.isEmpty then "e" else showInts l
+def showState : Option Exact.QS → String
+  | none => "None"
+  | some s => s!"{s.k}:" ++ "_".intercalate (s.vecs.map showInts)
+def showProb (p : Exact.Prob) : String := s!"{p.num}/{p.den}"
+def showRef : Option Nat → String
+  | none => "N"
+  | some r => toString r
+def showEv : Ev → String
+  | .fired i => s!"f{i}" | .skipped i => s!"s{i}" | .measured i o => s!"m{i}={o}" | .dephased i => s!"d{i}"
+def showEvs (l : List Ev) : String := ",".intercalate (l.map showEv)
+def showArgs (a : List (Nat × Int)) : String := ",".intercalate (a.map fun (k, v) => s!"{k}:{v}")
+def showTok (t : Nat × List (Nat × Int)) : String := s!"{t.1}:{showArgs t.2}"
+
+def showResult (h : Heap) (r : Result Exact.QS Exact.Prob) : String :=
+  "&".intercalate (r.states.map showState) ++ "!" ++ "&".intercalate (r.probs.map showProb) ++ "!" ++
+    (match r.cbits with
+     | none => "A"
+     | some l => "+".intercalate (l.map fun
+        | none => "N"
+        | some ref => s!"{ref}:{showList (h.get ref)}"))
+
+def showWorld (w : W) : String :=
+  let sim := match w.sim with
+    | none => "N"
+    | some s => s!"{showRef s.cbits}|{showState s.st}|{showProb s.prob}|{s.opIndex}|" ++
+        (match s.mres with | none => "N" | some l => showList l) ++ s!"|{s.mind}|" ++
+        (match s.form with | .qobj => "q" | .tensor => "t" | .matrix => "m" | .garbage => "g")
+  "W!heap=" ++ ";".intercalate (w.heap.cells.map showList) ++ "!sim=" ++ sim ++
+    "!comp=" ++ showArgs w.comp.args ++ s!"/{w.comp.phase}" ++
+    "!proc=" ++ (match w.proc.pulses with | none => "N" | some t => showTok t) ++ s!"/{w.proc.phase}"
+
+def execCall (cfg : Cfg) (mode : Mode) (c : Circuit) (inits : List Exact.QS) (phases : List Int)
+    (w : W) (call : Call) : W × String :=
+  let n0 := w.log.length
+  let evs (w' : W) : String := showEvs (w'.log.drop n0)
+  let dummy : Exact.QS := { n := c.nq, k := 0, vecs := [] }
+  match call with
+  | .run st cb mr =>
+    match run Exact.backend cfg mode c w (inits.getD st dummy) cb mr with
+    | (w', .ok r) => (w', "R!" ++ showResult w'.heap r ++ "!" ++ evs w')
+    | (w', .error e) => (w', "E" ++ errName e ++ "!" ++ evs w')
+  | .stat st cb =>
+    match runStatistics Exact.backend cfg mode c w (inits.getD st dummy) cb with
+    | (w', .ok r) => (w', "R!" ++ showResult w'.heap r ++ "!" ++ evs w')
+    | (w', .error e) => (w', "E" ++ errName e ++ "!" ++ evs w')
+  | .init st cb mr => (initRun cfg c w (inits.getD st dummy) cb mr, "I")
+  | .step =>
+    match step Exact.backend cfg mode c w with
+    | (w', none) => (w', "S!" ++ evs w')
+    | (w', some e) => (w', "E" ++ errName e ++ "!" ++ evs w')
+  | .getState =>
+    match w.sim with
+    | none => (w, "Eattr!")
+    | some s0 =>
+      match getter cfg s0 with
+      | (s, none) => ({ w with sim := some s }, "G!" ++ showState s.st)
+      | (s, some e) => ({ w with sim := some s }, "E" ++ errName e ++ "!")
+  | .query => (w, "Q")
+  | .compile circ args =>
+    let (cp, tok) := compile cfg phases w.comp circ args
+    ({ w with comp := cp }, "C" ++ showTok tok)
+  | .load circ user =>
+    let (w', tok) := loadCircuit cfg phases w circ user
+    (w', "C" ++ showTok tok)
+
+def parseLists (s : String) : Option (List (List Int)) :=
+  if s = "N" then some [] else
+    (s.splitOn ";").mapM fun l => if l = "e" then some [] else intList? l
+
+def hist (fs : List String) : Option String := do
+  let cfgs ← fStr? fs "cfg"
+  let cfg : Cfg ← match cfgs.toList with
+    | [a, b, c, d] => some { copyCbits := a == '1', checkCcv := b == '1', resetPhase := c == '1', pureGetter := d == '1' }
+    | _ => none
+  let mode ← match fStr? fs "mode" with
+    | some "sv" => some Mode.sv | some "dm" => some Mode.dm | _ => none
+  let n ← fNat? fs "n"
+  let ncb ← fNat? fs "ncb"
+  let opsS ← fStr? fs "ops"
+  let ops ← if opsS = "N" then some [] else (opsS.splitOn ";").mapM parseOp
+  let lists ← (fStr? fs "lists").bind parseLists
+  let rngS ← fStr? fs "rng"
+  let rng ← if rngS = "N" then some [] else intList? rngS
+  let initsS ← fStr? fs "inits"
+  let inits ← if initsS = "N" then some [] else (initsS.splitOn "/").mapM (parseState n)
+  let phS ← fStr? fs "phases"
+  let phases ← if phS = "N" then some [] else intList? phS
+  let callsS ← fStr? fs "calls"
+  let calls ← if callsS = "N" then some [] else (callsS.splitOn "/").mapM parseCall
+  let c : Circuit := { nq := n, ncb := ncb, ops := ops }
+  if !c.constructible cfg then pure "err value" else
+  let w0 : W := { heap := ⟨lists⟩, sim := none, rng := rng, log := [],
+                  comp := defaultCompiler, proc := { pulses := none, phase := 0 } }
+  let isGarbage (w : W) : Bool := match w.sim with | some s => s.form == .garbage | none => false
+  let (w, outs) := calls.foldl (fun (acc : W × List String) call =>
+      let (w', o) := execCall cfg mode c inits phases acc.1 call
+      (w', acc.2 ++ [if isGarbage w' then o ++ "!GARBAGE" else o])) (w0, [])
+  pure (" ; ".intercalate (outs ++ [showWorld w]))
+
+/-- `ccv cs=<controls|e> v=<value> bits=<cbits|N|e>` → `ok 0|1` / `err <kind>`;
+`d2b v=<value> len=<length>` → digits -/
+def step (line : String) : String :=
+  let fs := fields line
+  match fs.head? with
+  | some "hist" => (hist fs).getD "bad-op"
+  | some "ccv" =>
+    match (fStr? fs "cs").bind optInts?, fInt? fs "v", (fStr? fs "bits").bind optInts? with
+    | some (some cs), some v, some bits =>
+      match checkCCV cs v bits with
+      | .ok b => if b then "ok 1" else "ok 0"
+      | .error e => "err " ++ errName e
+    | _, _, _ => "bad-op"
+  | some "d2b" =>
+    match fInt? fs "v", fNat? fs "len" with
+    | some v, some len =>
+      match decimalToBinary v len with
+      | .ok l => "ok " ++ showNats l
+      | .error e => "err " ++ errName e
+    | _, _ => "bad-op"
+  | _ => "bad-op"
+
 def main : IO Unit := serve step
